@@ -173,7 +173,8 @@ def process (s : Srv) : Env → Out × Srv
       let s' := todo.foldl (fun acc tm =>
         if acc.slot tm.id = .present then acc
         else if makeTree tm ro then storeAndFlush acc tm.id else acc) s
-      (.ok, { s' with treeLock := 0 })
+      -- the used descriptions are dropped (`delete(o.pendingTreeMarshal, el.ID)`)
+      (.ok, { s' with treeLock := 0, pendingTM := s'.pendingTM.filter (fun tm => tm.ro ≠ ro.id) })
   | .config _ => (.ok, s)
 
 /-- tokens for which the overlay hands the message to an (existing or new) instance -/
